@@ -386,7 +386,7 @@ func c18RunTicker(header []string, ops [][]string) []string {
 //   Start() is called with recheckInterval = 300us, so ticker Routines (under Mu) run concurrently
 //   with the API calls of the harness.  ShouldTerminateSession answers bit i of hmask at its
 //   i-th call, StartSession picks candidates[(cmask >> 2i) & 3 mod len] at its i-th call.
-//   xb = Terminate() issued while a ticker Routine is inside SelectSessionPeerCandidates (the
+//   xb / ub <p> = Terminate() / UnregisterPeer(p) issued while a ticker Routine is inside SelectSessionPeerCandidates (the
 //   callback blocks until Terminate() has had time to reach Mu): forces the interleaving
 //   "Routine holds Mu, Terminate arrives".
 //   Every callback is logged with the kind of goroutine that made it (t: = the loop goroutine,
@@ -541,11 +541,19 @@ func c18RunLoop(header []string, ops [][]string) []string {
 			}
 			terminated = true
 			call("x", func() { d.Terminate() })
-		case "xb":
-			if terminated {
-				continue
+		case "xb", "ub":
+			// the API call is issued while a ticker Routine is blocked inside
+			// SelectSessionPeerCandidates (holding Mu)
+			name, f := "x", func() { d.Terminate() }
+			if op[0] == "ub" {
+				p, _ := strconv.ParseUint(op[1], 10, 64)
+				name, f = "u"+op[1], func() { _ = d.UnregisterPeer(c18PeerName(p)) }
+			} else {
+				if terminated {
+					continue
+				}
+				terminated = true
 			}
-			terminated = true
 			mu.Lock()
 			blockSelect = true
 			mu.Unlock()
@@ -564,18 +572,18 @@ func c18RunLoop(header []string, ops [][]string) []string {
 				}
 			}
 			if blocked {
-				vu.Stat("loop_terminate_during_select")
+				vu.Stat("loop_call_during_select")
 			}
 			done := make(chan struct{})
 			go func() {
 				mu.Lock()
 				api[c18Gid()] = true
 				mu.Unlock()
-				call("x", func() { d.Terminate() })
+				call(name, f)
 				close(done)
 			}()
 			if blocked {
-				time.Sleep(400 * time.Microsecond) // let Terminate() reach Mu (or, if it does not take Mu first, run ahead)
+				time.Sleep(400 * time.Microsecond) // let the call reach Mu (or, if it does not take Mu first, run ahead)
 				release <- struct{}{}
 			}
 			<-done
@@ -610,6 +618,8 @@ func c18GenLoop(r *rand.Rand, emit func(...string)) {
 			in = append(in, "w")
 		case x < 18:
 			in = append(in, "x")
+		case x < 19:
+			in = append(in, "ub", strconv.Itoa(1+r.Intn(npeers)))
 		default:
 			in = append(in, "xb")
 		}
@@ -785,6 +795,7 @@ func c18Gen(r *rand.Rand, n int, tier string, emit func(...string)) {
 	// the forced interleaving "a ticker Routine holds Mu inside SelectSessionPeerCandidates,
 	// Terminate() arrives" first, then random loop histories
 	emit("L", "0", "0", ";", "r", "1", ";", "u", "1", ";", "r", "1", ";", "xb", ";", "w")
+	emit("L", "0", "0", ";", "r", "1", ";", "r", "2", ";", "w", ";", "u", "1", ";", "ub", "2", ";", "w")
 	for i := 0; i < nt; i++ {
 		c18GenLoop(r, emit)
 	}
